@@ -222,12 +222,7 @@ impl<R: Read> PgnRawParser<R> {
 
         let token = self.read_token()?;
 
-        let mut chars = token.chars();
-        if chars.next() == Some('*') {
-            return Ok(None);
-        }
-
-        if let Some('-' | '/') = chars.next() {
+        if matches!(token.as_str(), "*" | "1-0" | "0-1" | "1/2-1/2") {
             return Ok(None);
         }
 
